@@ -6,7 +6,8 @@
 //!  "gates":[{"sel":"mul"|"cmul"|"add"|"none","cons":[{"prods":[[atom,...],...],"out":atom|null}]}],
 //!  "lookups":[{"pairs":[[[atom..],[atom..]],...]}],
 //!  "eq":[["a",c]|["i",c]|["f",c]...], "const_col":bool,
-//!  "copies":[["eq",c1,c2]|["inst",c,icol,irow]|["const",c,val]]}
+//!  "copies":[["eq",c1,c2]|["inst",c,icol,irow]|["const",c,val]
+//!            |["eqr",c1,r1,c2,r2]|["instr",c,r,icol,irow]|["constr",c,r,val]|["fixr",c,r,fcol,frow]]}
 //! atom = ["a",col,rot] | ["f",col,rot] | ["i",col,rot] | ["c",idx] | ["k",small_int]
 //! constraint polynomial = sum_of_products - out.
 use std::collections::BTreeMap;
@@ -45,6 +46,15 @@ pub enum Copy {
     Eq(usize, usize),
     Inst(usize, usize, usize),
     Const(usize, u64),
+    /// explicit absolute rows (the single region starts at row 0):
+    /// advice (c1,r1) == advice (c2,r2)   (same cell allowed: a cell copied onto itself)
+    EqR(usize, usize, usize, usize),
+    /// advice (c,r) tied to instance (icol, irow) through constrain_instance
+    InstR(usize, usize, usize, usize),
+    /// advice (c,r) tied to a constant through constrain_constant
+    ConstR(usize, usize, u64),
+    /// advice (c,r) == fixed (fcol, frow)   (the fixed column must be in `eq`)
+    FixR(usize, usize, usize, usize),
 }
 #[derive(Clone, Debug, Default)]
 pub struct Shape {
@@ -120,6 +130,10 @@ impl Shape {
                         "eq" => Copy::Eq(n(1) as usize, n(2) as usize),
                         "inst" => Copy::Inst(n(1) as usize, n(2) as usize, n(3) as usize),
                         "const" => Copy::Const(n(1) as usize, n(2)),
+                        "eqr" => Copy::EqR(n(1) as usize, n(2) as usize, n(3) as usize, n(4) as usize),
+                        "instr" => Copy::InstR(n(1) as usize, n(2) as usize, n(3) as usize, n(4) as usize),
+                        "constr" => Copy::ConstR(n(1) as usize, n(2) as usize, n(3)),
+                        "fixr" => Copy::FixR(n(1) as usize, n(2) as usize, n(3) as usize, n(4) as usize),
                         k => panic!("copy kind {k}"),
                     }
                 })
@@ -153,6 +167,8 @@ pub struct ShapeCircuit<F: PrimeField> {
     pub proof_idx: usize,
     pub gen: Option<fn(usize, usize, usize) -> F>,
     pub inst: Vec<Vec<F>>,
+    /// index of a copy entry whose tie the witness VIOLATES (value off by one): replay of a dropped copy constraint
+    pub cheat: Option<usize>,
 }
 
 pub fn fixed_value<F: PrimeField>(col: usize, row: usize) -> F {
@@ -197,7 +213,7 @@ impl<F: PrimeField> Circuit<F> for ShapeCircuit<F> {
     type Params = Shape;
 
     fn without_witnesses(&self) -> Self {
-        ShapeCircuit { shape: self.shape.clone(), proof_idx: self.proof_idx, gen: None, inst: vec![] }
+        ShapeCircuit { shape: self.shape.clone(), proof_idx: self.proof_idx, gen: None, inst: vec![], cheat: None }
     }
     fn params(&self) -> Shape {
         self.shape.clone()
@@ -378,22 +394,83 @@ impl<F: PrimeField> Circuit<F> for ShapeCircuit<F> {
                     r.assign_advice(|| "a", c.adv[*col], *row, || *v)?;
                 }
                 let mut inst_cells = vec![];
+                // advice cells assigned by the explicit-row copies (each cell assigned once, then reused)
+                let mut done: std::collections::HashMap<(usize, usize), midnight_proofs::circuit::Cell> = std::collections::HashMap::new();
                 for (i, cp) in s.copies.iter().enumerate() {
                     let row = s.copy_row(i);
+                    let bump = |v: Value<F>| if self.cheat == Some(i) { v.map(|x| x + F::ONE) } else { v };
                     match cp {
                         Copy::Eq(c1, c2) => {
                             let v = free(*c1, row);
                             let a = r.assign_advice(|| "cp", c.adv[*c1], row, || v)?;
-                            let b = r.assign_advice(|| "cp", c.adv[*c2], row, || v)?;
+                            let b = r.assign_advice(|| "cp", c.adv[*c2], row, || bump(v))?;
                             r.constrain_equal(a.cell(), b.cell())?;
                         }
                         Copy::Inst(c1, icol, irow) => {
-                            let v = inst_val(*icol, *irow as i64);
+                            let v = bump(inst_val(*icol, *irow as i64));
                             let a = r.assign_advice(|| "pi", c.adv[*c1], row, || v)?;
                             inst_cells.push((a.cell(), *icol, *irow));
                         }
                         Copy::Const(c1, k) => {
                             r.assign_advice_from_constant(|| "k", c.adv[*c1], row, F::from(*k))?;
+                        }
+                        Copy::EqR(c1, r1, c2, r2) => {
+                            let v = free(*c1, *r1);
+                            let a = match done.get(&(*c1, *r1)) {
+                                Some(cell) => *cell,
+                                None => {
+                                    let cell = r.assign_advice(|| "cp", c.adv[*c1], *r1, || v)?.cell();
+                                    done.insert((*c1, *r1), cell);
+                                    cell
+                                }
+                            };
+                            let b = match done.get(&(*c2, *r2)) {
+                                Some(cell) => *cell,
+                                None => {
+                                    let cell = r.assign_advice(|| "cp", c.adv[*c2], *r2, || bump(v))?.cell();
+                                    done.insert((*c2, *r2), cell);
+                                    cell
+                                }
+                            };
+                            r.constrain_equal(a, b)?;
+                        }
+                        Copy::InstR(c1, r1, icol, irow) => {
+                            let v = bump(inst_val(*icol, *irow as i64));
+                            let a = match done.get(&(*c1, *r1)) {
+                                Some(cell) => *cell,
+                                None => {
+                                    let cell = r.assign_advice(|| "pi", c.adv[*c1], *r1, || v)?.cell();
+                                    done.insert((*c1, *r1), cell);
+                                    cell
+                                }
+                            };
+                            inst_cells.push((a, *icol, *irow));
+                        }
+                        Copy::ConstR(c1, r1, k) => {
+                            let v = bump(Value::known(F::from(*k)));
+                            let a = match done.get(&(*c1, *r1)) {
+                                Some(cell) => *cell,
+                                None => {
+                                    let cell = r.assign_advice(|| "kc", c.adv[*c1], *r1, || v)?.cell();
+                                    done.insert((*c1, *r1), cell);
+                                    cell
+                                }
+                            };
+                            r.constrain_constant(a, F::from(*k))?;
+                        }
+                        Copy::FixR(c1, r1, fcol, frow) => {
+                            let fv = fixed_value::<F>(*fcol, *frow);
+                            let fcell = r.assign_fixed(|| "fx", c.fix[*fcol], *frow, || Value::known(fv))?.cell();
+                            let v = bump(Value::known(fv));
+                            let a = match done.get(&(*c1, *r1)) {
+                                Some(cell) => *cell,
+                                None => {
+                                    let cell = r.assign_advice(|| "fa", c.adv[*c1], *r1, || v)?.cell();
+                                    done.insert((*c1, *r1), cell);
+                                    cell
+                                }
+                            };
+                            r.constrain_equal(a, fcell)?;
                         }
                     }
                 }
